@@ -72,8 +72,18 @@ IpUpdOps == LET ks == SetToSeq(KeysIn(Top)) IN
    [i \in 1..CFG.K |-> Iou(ks[i], IF i = 3 THEN "s1" ELSE "n", IF i <= 2 THEN "D" ELSE "C", "O")] \o <<Iou(ks[CFG.K + 1], "n", "C", "O")>> \o TwoEach(Top - 1)
    \o <<Iou(1, "s1", "C", "O")>>      \* 1 (top bucket) + 2 * (Top - 1) + 1 (bucket 0) = the table limit of CfgRealIp2
    \o <<[o |-> "un", k |-> ks[CFG.K + 1], sub |-> "s1", ver |-> 1, st |-> "-"]>>
-Init == \E pat \in (IF PREFILL = 0 THEN {0} ELSE IF PREFILL >= 94 THEN {PREFILL} ELSE {0, 1, 3, PREFILL}) :
-          /\ script = (IF PREFILL = 0 THEN <<>> ELSE IF PREFILL = 99 THEN IpOps ELSE IF PREFILL = 98 THEN PendOps ELSE IF PREFILL = 97 THEN HeadOps ELSE IF PREFILL = 96 THEN IncOps ELSE IF PREFILL = 95 THEN PdisOps ELSE IF PREFILL = 94 THEN IpUpdOps ELSE FillOps(pat, PREFILL, "n"))
+\* scenario "pre": full top bucket of disconnected nodes only, a connected candidate pending; a slot is freed before the candidate's
+\* time has come and the candidate is reported again, now disconnected: it takes the slot and leaves the pending slot
+PreOps == LET ks == SetToSeq(KeysIn(Top)) IN
+   [i \in 1..CFG.K |-> Iou(ks[i], "n", "D", "O")]
+   \o <<Iou(ks[CFG.K + 1], "n", "C", "O"), [o |-> "rm", k |-> ks[1]], Iou(ks[CFG.K + 1], "n", "D", "O"), [o |-> "tick", d |-> 1], [o |-> "iter"]>>
+\* scenario "preip": full top bucket with two s1 nodes, a candidate without ip4 pending; a slot is freed and the candidate is reported
+\* again with a record in s1: the bucket limit refuses it
+PreIpOps == LET ks == SetToSeq(KeysIn(Top)) IN
+   [i \in 1..CFG.K |-> Iou(ks[i], IF i \in {3, 4} THEN "s1" ELSE "n", IF i <= 2 THEN "D" ELSE "C", "O")]
+   \o <<Iou(ks[CFG.K + 1], "n", "C", "O"), [o |-> "rm", k |-> ks[5]], Iou(ks[CFG.K + 1], "s1", "C", "O"), [o |-> "iter"], [o |-> "tick", d |-> 1], [o |-> "iter"]>>
+Init == \E pat \in (IF PREFILL = 0 THEN {0} ELSE IF PREFILL >= 92 THEN {PREFILL} ELSE {0, 1, 3, PREFILL}) :
+          /\ script = (IF PREFILL = 0 THEN <<>> ELSE IF PREFILL = 99 THEN IpOps ELSE IF PREFILL = 98 THEN PendOps ELSE IF PREFILL = 97 THEN HeadOps ELSE IF PREFILL = 96 THEN IncOps ELSE IF PREFILL = 95 THEN PdisOps ELSE IF PREFILL = 94 THEN IpUpdOps ELSE IF PREFILL = 93 THEN PreOps ELSE IF PREFILL = 92 THEN PreIpOps ELSE FillOps(pat, PREFILL, "n"))
           /\ tb = EmptyTable(CFG) /\ stamp = <<>>
           /\ lastop = Reset /\ lastret = "ok" /\ hist = <<Reset>> /\ res = [tb |-> <<>>, ret |-> "ok"]
 \* (primed variables are bound in sequence so that Step is evaluated once per successor: TLC
@@ -138,5 +148,7 @@ GoalDisconnectedPendingApplied == ~(\E b \in Buckets(CFG) : script = <<>> /\ las
 \* the record update of a pending candidate into a saturated subnet is refused; the candidate is promoted with its old record
 GoalPendingUpdateFiltered == ~(\E b \in Buckets(CFG) : script = <<>> /\ lastop.o = "iter" /\ FullB(b) /\ ~tb[b].pend.on /\ hist[Len(hist) - 1].o = "tick"
                            /\ \E i \in 1..Len(tb[b].nodes) : tb[b].nodes[i].key = SetToSeq(KeysIn(Top))[CFG.K + 1] /\ tb[b].nodes[i].val.sub = "n")
+GoalPendingReinserted == ~(PREFILL = 93 /\ script = <<>> /\ lastop.o = "iter")
+GoalPendingReinsertedFiltered == ~(PREFILL = 92 /\ script = <<>> /\ lastop.o = "iter")
 GoalBucket0Closest  == ~(lastop.o = "closest" /\ lastop.t % 2 = 1 /\ Len(tb[0].nodes) = 1 /\ Len(lastret) >= 3)
 =============================================================================
